@@ -649,8 +649,8 @@ def run_job(job, seed=0, replay_dir=None):
             warnings.simplefilter("ignore")
             return job.invoke(symmods, S, kit)
 
-    def real_outcome(model):
-        Sc = concretize(S, model)
+    def real_outcome(model, Sc=None):
+        Sc = concretize(S, model) if Sc is None else Sc
         try:
             with warnings.catch_warnings():
                 warnings.simplefilter("ignore")
@@ -808,6 +808,11 @@ def run_job(job, seed=0, replay_dir=None):
             fallback_probe(job, S, V, ex, res, real_outcome, known, replay_dir)
         except Exception as e:
             res["inconclusive"].append(f"fallback probe failed: {e!r}")
+    if getattr(job, "offgrid", None) and not res["violations"] and not job.expect_canary_sat:
+        try:
+            offgrid_probe(job, S, V, ex, res, real_outcome, known, replay_dir)
+        except Exception as e:
+            res["inconclusive"].append(f"off-grid probe failed: {e!r}")
     res["decisions"] = ex.n_decisions
     res["merges"] = ex.n_merges
     res["queries"] = ex.n_queries
@@ -939,6 +944,74 @@ def concrete_truth(m, f):
     if m is None:
         return False
     return z3.is_true(z3.simplify(_ev(m, g)))
+
+
+def _scale_floats(x, num, den):
+    """structure-preserving map v -> v*num/den on python floats (NaN kept); everything else untouched"""
+    if isinstance(x, bool):
+        return x
+    if isinstance(x, float):
+        return x if x != x else x * num / den
+    if isinstance(x, dict):
+        return {k: _scale_floats(v, num, den) for k, v in x.items()}
+    if isinstance(x, list):
+        return [_scale_floats(v, num, den) for v in x]
+    if isinstance(x, tuple):
+        return tuple(_scale_floats(v, num, den) for v in x)
+    if isinstance(x, Struct):
+        return Struct(**{k: _scale_floats(v, num, den) for k, v in vars(x).items()})
+    return x
+
+
+def offgrid_probe(job, S, V, ex, res, real_outcome, known, replay_dir, budget=120):
+    """For properties whose oracle only *compares* inputs (range tests, bounding box, climatology spans) binary64 and the reals
+    agree on every float, not just on grid G.  The solver's boundary-seeking models (each oracle comparison true / false / exactly
+    equal) are mapped off the grid by a monotone scaling (x -> x/10, x -> 7x/3: decimal-looking, non-dyadic floats that keep every
+    order relation and equality), the REAL code is run on them and the property is evaluated on the exact rational values of those
+    floats.  An implementation that replaces the comparisons by arithmetic (|x - centre| > half_width, ...) is exact in the reals -
+    and therefore invisible to the real-number encoding - but not in binary64; this probe is what sees it."""
+    from . import findings
+    cons = [*V.grid]
+    excl = [mk_not(p) for _, p in known]
+    n = getattr(job, "n", None)
+    targets = []
+    if n is not None:
+        try:
+            dummy = Outcome(flags=[z3.Int(f"dummy!f{i}") for i in range(n)], mask=[FALSE] * n, shape=(n,), dtype="uint8")
+            for a in _atoms([f for _, f in job.holds(S, dummy)]):
+                if any(str(c).startswith("dummy!") for c in _consts(a)):
+                    continue
+                if a.decl().kind() != z3.Z3_OP_EQ:
+                    targets.append(a.arg(0) == a.arg(1))
+                targets += [a, z3.Not(a)]
+        except Exception:
+            pass
+    models = []
+    for t in targets[:budget]:
+        r, m = ex.model_of(*cons, *excl, t)
+        if r == z3.sat and exact_on_grid(S, m):
+            models.append(m)
+    seen = set()
+    for m in models:
+        Sc0 = concretize(S, m)
+        for num, den in ((1, 10), (7, 3)):
+            Sc = _scale_floats(Sc0, num, den)
+            key = json.dumps(jsonable(Sc), sort_keys=True)
+            if key in seen:
+                continue
+            seen.add(key)
+            _, rout = real_outcome(None, Sc)
+            try:
+                robl = job.holds(findings.symbolize(Sc), rout)
+            except Exception:
+                continue
+            res["offgrid_probes"] = res.get("offgrid_probes", 0) + 1
+            bad = [lab for lab, f in robl if not concrete_truth(None, f)]
+            if bad:
+                res["violations"].append(_violation(job, bad[0] + " [inputs off the dyadic grid: the property's comparisons are exact in "
+                                                    "binary64, the code's are not]", Sc, rout, rout, None, replay_dir,
+                                                    via="off-grid probe of the real code"))
+                return
 
 
 def _consts(t):
